@@ -218,6 +218,17 @@ def run(chk):
             if ll(re_[1]) < best - (slope * 3e-5 + 1e-9 * max(1.0, abs(best))):
                 chk.violation("C17|powerlaw_mle_alpha|exact-not-maximiser", f"'exact' estimate {re_[1]} has likelihood below a grid point",
                               {"c": c, "cmin": cmin, "ll": float(ll(re_[1])), "grid_best": float(best)})
+    # history: custom optimiser options in one call must not leak into a later default call
+    np.random.seed((seed0 + 4242) % (2 ** 32))
+    c = [int(x) for x in st.powerlaw_sample(size=400, xmin=1, alpha=2.0)]
+    d0 = core.call_real(lambda: float(st.powerlaw_mle_alpha(c, cmin=1, method="exact")))
+    cb = core.call_real(lambda: float(st.powerlaw_mle_alpha(c, cmin=1, method="exact", bounds=[2.6, 3.4])))
+    d1 = core.call_real(lambda: float(st.powerlaw_mle_alpha(c, cmin=1, method="exact")))
+    chk.case(nontrivial_key="mle-history")
+    if cb[0] != "ok" or not (2.6 <= cb[1] <= 3.4):
+        chk.violation("C17|powerlaw_mle_alpha|custom-bounds", f"'exact' with bounds=[2.6, 3.4] returned {cb}", {})
+    if d0[0] != "ok" or d1[0] != "ok" or abs(d0[1] - d1[1]) > 1e-4:
+        chk.violation("C17|powerlaw_mle_alpha|history", f"default 'exact' fit changed after a call with custom bounds: {d0} then {d1}", {})
     st_bad = core.call_real(lambda: st.powerlaw_mle_alpha([1, 2, 3], method="bogus"))
     if st_bad != ("error", "ValueError"):
         chk.violation("C17|powerlaw_mle_alpha|bad-method", f"unknown method not rejected with ValueError: {st_bad}", {})
